@@ -10,7 +10,7 @@ CHECKS = {
         "model_checking",
         "Bounded exhaustive exploration of the real Evaluate impls: every function message of a closed representation alphabet "
         "(all four variants + unset oneof, unsorted/repeated terms, all (row,col) positions, explicit zeros, absent/zero linear part, "
-        "degree <= 4, up to 3 terms (thorough: 4-term linear, 3-entry quadratic over all values, more 3-term polynomials), ID extremes 0 and u64::MAX) x every state of a value grid (including states lacking exactly one occurring ID), "
+        "degree <= 4, up to 3 terms (thorough: 4-term linear, 3-entry quadratic over all values, more 3-term polynomials), ID extremes 0 and u64::MAX; long functions of every variant with 31..100 terms, distinct and repeating ids) x every state of a value grid (including states lacking exactly one occurring ID), "
         "compared bit-exactly with an independent exact-rational evaluator; a non-dyadic sub-alphabet is compared within a rigorous "
         "gamma_n rounding bound. Defects in term-wise accumulation are local, so the small scope contains every shape the code distinguishes.",
         "Trusted: num::BigRational, the harness's message readers (public fields only). Alphabet bounds are stated in the evidence; nothing outside them is claimed.",
@@ -20,7 +20,7 @@ CHECKS = {
         "model_checking",
         "Every operator impl the API defines (about 120 Add/Sub/Mul/Neg impls over f64, &DecisionVariable, &Parameter, Linear, Quadratic, Polynomial, Function, "
         "incl. the macro-generated mixed and reversed ones, plus Sum/Product) is executed on every ordered pair of operand values from closed pools containing every "
-        "representation quirk (unsorted/repeated terms, lower/upper triangle, explicit zeros, absent linear part, every oneof variant); the result message is read back "
+        "representation quirk (unsorted/repeated terms, lower/upper triangle, explicit zeros, absent linear part, every oneof variant) and from a pool with id extremes (0, 2^32+3 next to 3, u64::MAX); the result message is read back "
         "through its public fields and must equal exact-rational polynomial arithmetic coefficient by coefficient; term iterators of operands and results must yield sorted ids summing to the polynomial.",
         "Trusted: num::BigRational and the harness readers. Quick tier traverses oversized pair grids with a fixed stride (recorded in evidence, exhaustive=false then); thorough covers the full grids. Unset-oneof Function operands are outside the alphabet (documented panic).",
         "bounded exhaustive enumeration of operator impl x operand pairs on the real code vs exact polynomial arithmetic",
@@ -36,7 +36,7 @@ CHECKS = {
     "C04": (
         "model_checking",
         "(1) Function::substitute on a function family x all 8^4 replacement maps over four keys (constant, linear, linear mentioning another replaced id, quadratic, zero, identity, an unnormalised linear listing an id twice, absent) vs exact simultaneous composition. "
-        "(2) Instance::substitute on an instance family (replaced variables unbounded, or bounded so that the replacement values fall outside) x first map x optional second map (chains) x states, under every iteration order of the dependency map (hook H1): every function compared as polynomial, dependency map compared, Solution compared with the original instance evaluated at the completed state; log_encode->substitute->evaluate on all bit patterns. "
+        "(2) Instance::substitute on an instance family (variable lists in and out of id order; replaced variables unbounded, or bounded so that the replacement values fall outside) x first map x optional second map (chains) x states, under every iteration order of the dependency map (hook H1): every function compared as polynomial, dependency map compared, Solution compared with the original instance evaluated at the completed state; log_encode->substitute->evaluate on all bit patterns. "
         "(3) Explicit enumeration of ALL dependency graphs on n<=3 (quick) / n<=4 (thorough, 16.7M graphs) dependents, each summing any subset of {dependents incl. itself, a valued variable, a value-less variable}, x all n! iteration orders, through the real Instance::evaluate; oracle = Kahn topological evaluation: exact values when acyclic and grounded, Err otherwise; a watchdog turns a hang into a violation.",
         "Trusted: Poly.subst, Kahn oracle, hook H1 (sorts the bucket by key and applies the harness permutation; identity when unset). Instance-level replacements mention only remaining variables, as the property states.",
         "exhaustive enumeration of dependency graphs x iteration orders (schedules) and of replacement maps on the real code vs reference composition",
@@ -50,13 +50,13 @@ CHECKS = {
     ),
     "C06": (
         "model_checking",
-        "Every Samples message with k sample ids (every ordered set partition of the ids into entries x every assignment of one of 4 pool states to each entry; the pool contains a state omitting the irrelevant variable, two different states with equal objective and constraint values, and a duplicate; k<=3 quick / k<=4 thorough in full (thorough also k=5 in full on every 8th instance), k=5,6 over a 2-state pool, k=7,8 structured; plus every add_sample insertion order for k=3) over an instance family (irrelevant-variable bound shapes, pre-fixed variable whose value one pool state contradicts, dependency none/single/chain, active+removed constraints (removal reasons incl. the empty string), constraint values exactly on the +-1e-6 tolerance, objectives in quirky representations: split constants, explicit zeros, degree-0 polynomials), through the real evaluate_samples and SampleSet::get; each extracted Solution compared field by field (and as a whole message) with Instance::evaluate of that sample's state; objective/feasibility/constraint tables must be keyed by exactly the submitted ids; samples whose state omits a variable the problem uses (alone, or beside a complete sample in either order) must make evaluate_samples fail exactly when Instance::evaluate fails on them.",
+        "Every Samples message with k sample ids (every ordered set partition of the ids into entries x every assignment of one of 4 pool states to each entry; the pool contains a state omitting the irrelevant variable, two different states with equal objective and constraint values, and a duplicate; k<=3 quick / k<=4 thorough in full (thorough also k=5 in full on every 8th instance), k=5,6 over a 2-state pool, k=7,8 structured; plus every add_sample insertion order for k=3) over an instance family (irrelevant-variable bound shapes, pre-fixed variable whose value one pool state contradicts, a pool value 5e-8 beyond a bound (inside evaluate's tolerance), dependency none/single/chain, active+removed constraints (removal reasons incl. the empty string), constraint values exactly on the +-1e-6 tolerance, objectives in quirky representations: split constants, explicit zeros, degree-0 polynomials), through the real evaluate_samples and SampleSet::get; each extracted Solution compared field by field (and as a whole message) with Instance::evaluate of that sample's state; objective/feasibility/constraint tables must be keyed by exactly the submitted ids; samples whose state omits a variable the problem uses (alone, or beside a complete sample in either order) must make evaluate_samples fail exactly when Instance::evaluate fails on them.",
         "Differential oracle: Instance::evaluate, itself verified against the reference evaluator by C05. All pool states are in-bound; a state that evaluate rejects lacks a used variable.",
         "bounded exhaustive enumeration of Samples messages (all groupings) on the real code, differential vs the single-state path",
     ),
     "C09": (
         "model_checking",
-        "Product of objectives(10) x active constraint lists (0..3; functions absent/constant/linear/quadratic; both equalities) x pre-existing removed lists (0..2) x {two non-contiguous variable-id layouts, dependency, hints, sense} through penalty_method and uniform_penalty_method. Oracle: no active constraint left; every input constraint (previously removed ones included) kept with unchanged id/function/equality; one fresh weight parameter per penalised constraint tagged with its id, ids distinct from variable ids; variables/sense/dependencies carried over; objective == f + sum w_c*g_c^2 (resp. w*sum g_c^2) as a POLYNOMIAL IDENTITY in (x, w) computed in exact rationals (implies equality at every state and weight), plus with_parameters+evaluate on a weight x state grid.",
+        "Product of objectives(10) x active constraint lists (0..3; functions absent/constant/linear/quadratic; both equalities) x pre-existing removed lists (0..2) x {two non-contiguous variable-id layouts, dependency, hints, sense}, plus instances whose constraint ids sit at the top of the id space (u64::MAX-1, u64::MAX), through penalty_method and uniform_penalty_method. Oracle: no active constraint left; every input constraint (previously removed ones included) kept with unchanged id/function/equality; one fresh weight parameter per penalised constraint tagged with its id, ids distinct from variable ids; variables/sense/dependencies carried over; objective == f + sum w_c*g_c^2 (resp. w*sum g_c^2) as a POLYNOMIAL IDENTITY in (x, w) computed in exact rationals (implies equality at every state and weight), plus with_parameters+evaluate on a weight x state grid.",
         "Penalised constraints are the input's active ones (already-removed constraints are kept, not penalised). Unset-oneof objectives are outside the alphabet (documented panic of Function arithmetic).",
         "bounded exhaustive enumeration of instances on the real code vs exact polynomial identity",
     ),
@@ -80,37 +80,37 @@ CHECKS = {
     ),
     "C13": (
         "model_checking",
-        "Every inequality f(x)<=0 with f = up to 2 (quick) / 3 (thorough) distinct monomials of degree<=2 + constant, coefficients {+-1,+-2,3,+-1/2,1/3,-2/3,3/4}, constants {-3,-1,-1/2,0,1/2,2}, over 1..3 integer/binary variables, every assignment of 5 boxes to the variables, Linear/Quadratic/Polynomial and unnormalised representations (a term listed twice in both id orders; the constant split over two degree-0 monomials), another constraint present, a second conversion in the same instance on a sub-grid, two variable-list layouts; convert_inequality_to_equality_with_integer_slack x max_integer_range {1,3,100} and add_integer_slack_to_inequality x slack_upper_bound {1,2,5}. Oracle: brute force over EVERY lattice point of the box and EVERY slack value in the new variable's bounds: feasible set in x unchanged; slack integer, fresh id, bound [0,S], same constraint id, b reported = slack coefficient; moved-to-removed => constraint unchanged and satisfied everywhere; InfeasibleDetected => no clearly feasible lattice point; for linear f the determined outcomes are asserted in the converse direction too; rejections (unknown constraint id, a variable of f left undefined, equality field = 0 / unspecified / outside the enumeration, continuous or semi-continuous variable, range above limit) leave the instance unchanged.",
+        "Every inequality f(x)<=0 with f = up to 2 (quick) / 3 (thorough) distinct monomials of degree<=2 + constant, coefficients {+-1,+-2,3,+-1/2,1/3,-2/3,3/4}, constants {-3,-1,-1/2,0,1/2,2}, over 1..3 integer/binary variables, every assignment of 5 boxes to the variables, Linear/Quadratic/Polynomial and unnormalised representations (a term listed twice in both id orders; the constant split over two degree-0 monomials), other constraints present in two list layouts (one in descending id order), a second conversion in the same instance on a sub-grid, two variable-list layouts; convert_inequality_to_equality_with_integer_slack x max_integer_range {1,3,100} and add_integer_slack_to_inequality x slack_upper_bound {1,2,5}. Oracle: brute force over EVERY lattice point of the box and EVERY slack value in the new variable's bounds: feasible set in x unchanged; slack integer, fresh id, bound [0,S], same constraint id, b reported = slack coefficient; moved-to-removed => constraint unchanged and satisfied everywhere; InfeasibleDetected => no clearly feasible lattice point; for linear f the determined outcomes are asserted in the converse direction too; rejections (unknown constraint id, a variable of f left undefined, equality field = 0 / unspecified / outside the enumeration, continuous or semi-continuous variable, range above limit) leave the instance unchanged.",
         "Feasibility at lattice points uses the 1e-6 rule on values that are multiples of 1/12 (far from the tolerance). add_integer_slack's exact-zero threshold with non-dyadic coefficients is not asserted at the boundary, nor is b == slack coefficient when b is rounding noise (<= 1e-12) of a non-dyadic unnormalised message (both counted as boundary_cases_not_asserted). slack_upper_bound=0 and unbounded variables are outside the alphabet.",
         "bounded exhaustive enumeration of inequalities x boxes with brute-force lattice/slack oracle on the real code",
     ),
     "C14": (
         "model_checking",
-        "Explicit-state breadth-first search with stateright over the real Instance: from each of 12 initial instances (3 constraint-function sets with 3-4 constraints, 0/1/2/all initially removed; thorough adds a 5-constraint set: 2.0e5 states, 5.9e6 transitions) every action relax(id, reason in {a, empty string}, params in {none,{k:v}}) / relax(id, a reason with leading and trailing whitespace) / restore(id) for every constraint id and the unknown id 99. The instance message is the whole state (dedup key = message bytes + reference model), so every history of any length is covered, not only length <= 8. Every transition is compared with a two-set reference model (op on an id not in the expected list must fail and leave the instance equal to its clone); every reachable state is checked: multiset of (id, function, equality, metadata) over active+removed unchanged, ids partitioned, recorded reasons/parameters, and on all 27 grid states per-constraint values and feasible equal the initial instance's while feasible_relaxed follows the currently active constraints; three incomplete states (each variable omitted) are accepted or rejected exactly as by the initial instance.",
+        "Explicit-state breadth-first search with stateright over the real Instance: from each of 14 initial instances (3 constraint-function sets with 3-4 constraints, 0/1/2/all initially removed, two more in which a variable that a constraint mentions carries a fixed value; thorough adds a 5-constraint set: 2.0e5 states, 5.9e6 transitions) every action relax(id, reason in {a, empty string}, params in {none,{k:v}}) / relax(id, a reason with leading and trailing whitespace) / restore(id) for every constraint id and the unknown id 99. The instance message is the whole state (dedup key = message bytes + reference model), so every history of any length is covered, not only length <= 8. Every transition is compared with a two-set reference model (op on an id not in the expected list must fail and leave the instance equal to its clone); every reachable state is checked: multiset of (id, function, equality, metadata) over active+removed unchanged, ids partitioned, recorded reasons/parameters, and on all 27 grid states per-constraint values and feasible equal the initial instance's while feasible_relaxed follows the currently active constraints; three incomplete states (each variable omitted) are accepted or rejected exactly as by the initial instance.",
         "stateright 0.31 BFS; violations are collected through a side channel so exploration continues and every signature is reported; replay re-executes the recorded history without the explorer.",
         "explicit-state model checking (stateright BFS) of the real code with a reference model in lock-step",
     ),
     "C15": (
         "model_checking",
-        "(a) as_minimization_problem on every objective of the medium representation family (plus objectives with 2^-60 coefficients, which exact negation keeps) x both senses, once and twice: sense, objective == +-f as exact polynomials, every other field untouched, idempotent, identical ranking of all pairs of grid states. (b) every sample set with k<=6 (quick) / k<=7 (thorough; k=8 over two objective values) samples where each sample independently takes one of 3 objective values (so ties occur) and one of 3 feasibility classes (infeasible / feasible for remaining constraints only / feasible for all), produced by the real evaluate_samples, x both senses x {current fields, legacy fields decoded by prost} x {values grouped by state as evaluate_samples writes them, regrouped by value as another writer may}, for k<=4 also with objective values -inf / +inf and with the relaxed constraint carrying the empty reason (listed so, or after a real relax_constraint(id, \"\")): the returned id is feasible in the requested sense and unbeaten under the set's sense, Err exactly when no sample is feasible; feasible-id sets and the best Solution getters agree.",
+        "(a) as_minimization_problem on every objective of the medium representation family (plus objectives with 2^-60 coefficients, which exact negation keeps) x both senses, once and twice: sense, objective == +-f as exact polynomials, every other field untouched, idempotent, identical ranking of all pairs of grid states. (b) every sample set with k<=6 (quick) / k<=7 (thorough; k=8 over two objective values) samples where each sample independently takes one of 3 objective values (so ties occur) and one of 3 feasibility classes (infeasible / feasible for remaining constraints only / feasible for all), produced by the real evaluate_samples, x both senses x {current fields, legacy fields decoded by prost} x {values grouped by state as evaluate_samples writes them, regrouped by value as another writer may}, for k<=4 also with objective values -inf / +inf, with values -2^-60 / 0 / 2^-60 and with the relaxed constraint carrying the empty reason (listed so, or after a real relax_constraint(id, \"\")): the returned id is feasible in the requested sense and unbeaten under the set's sense, Err exactly when no sample is feasible; feasible-id sets and the best Solution getters agree.",
         "Legacy = tag 4 holds remaining-constraint feasibility, tag 6 all-constraint feasibility, tag 7 absent. Unspecified sense and unset-oneof objectives are outside the alphabet.",
         "bounded exhaustive enumeration of (objective, sense) and of sample-set feasibility/objective patterns on the real code",
     ),
     "C16": (
         "model_checking",
-        "All 26 valid intervals over endpoints {-inf,-2,-0.5,0,0.5,3,+inf} (thorough: 9 endpoints, 43 intervals): every ordered pair through + and * (also += and *=), powers 0..6, scaling/shifting by non-zero numbers incl. scaling by +-2^-60; each result must be a valid interval (no panic, no NaN, lower<=upper) enclosing the exact pointwise result for every alphabet point of the operands (corners, faces, interior, +-1000 on infinite sides). as_integer_bound on every 1/4-grid interval in [-3,3] (and infinite sides, and endpoints 1e-7 off the grid) containing an integer. evaluate_bound for a degree<=4 function family (all representations, repeated ids => powers) x every assignment of the 26 intervals or no entry to two variables x every grid point of the box. content_factor for all reduced p/q with q,|p|<=60 in four representations, all ordered pairs (q<=12 quick, q<=60 thorough = 4.8M pairs) and triples from a small pool, against lcm(q)/gcd(p) exactly.",
+        "All 26 valid intervals over endpoints {-inf,-2,-0.5,0,0.5,3,+inf} (thorough: 9 endpoints, 43 intervals): every ordered pair through + and * (also += and *=), powers 0..6, scaling/shifting by non-zero numbers incl. scaling by +-2^-60; each result must be a valid interval (no panic, no NaN, lower<=upper) enclosing the exact pointwise result for every alphabet point of the operands (corners, faces, interior, +-1000 on infinite sides). as_integer_bound on every 1/4-grid interval in [-3,3] (and infinite sides, and endpoints 1e-7 off the grid) containing an integer, and on every interval over +-1e300, +-3e19, +-1e19, +-2^63, +-2^53, 0, +-inf. evaluate_bound for a degree<=4 function family (all representations, repeated ids => powers) x every assignment of the 26 intervals or no entry to two variables x every grid point of the box, a third of the family again with ids u64::MAX and 0. content_factor for all reduced p/q with q,|p|<=60 in four representations, all ordered pairs (q<=12 quick, q<=60 thorough = 4.8M pairs) and triples from a small pool, against lcm(q)/gcd(p) exactly.",
         "All interval endpoints, points and coefficients are small dyadic rationals, so pointwise values are exact in f64. Scaling by 0 and as_integer_bound on integer-free intervals are excluded by the property.",
         "bounded exhaustive enumeration of intervals/boxes/points and of rational coefficient pairs on the real code vs exact arithmetic",
     ),
     "C08": (
         "fault_enumeration",
-        "Every single fault at every position of each valid base instance (4 bases covering every kind, bounds present/absent, every function variant, active+removed constraints, one-hot and SOS1 hints, dependencies, parameters, description): set id_j := id_i for every ordered pair of variables and of constraints across active+removed; replace each id occurrence of each function (objective, constraints, removed constraints, dependencies) by an undefined id; unset each oneof; unset sense / objective / each constraint function / equality / kind / removed inner constraint; each of 5 invalid bound shapes on each variable; undefined / repeated ids at every position of the hints; undefined dependency key; neutral mutations - and EVERY ORDERED PAIR of those faults. Oracle: a reference validator that re-derives the set of violated rules from the mutated message: validate() must reject exactly when ids are duplicated or used ids undefined; TryFrom<v1::Instance> must accept exactly when no rule is violated and its error (RawParseError variant + outermost context field) must name a violated rule; accepted messages are compared field by field with the typed view (hook H2: ids, kinds, bounds with unset = unbounded / [0,1], constraints, removed constraints, dependencies, hints, parameters, description). The C03 instance family is the accepting-side corpus. ParametricInstance::validate with its own single/pair fault list.",
+        "Every single fault at every position of each valid base instance (5 bases covering every kind, bounds present/absent, every function variant, active+removed constraints, one-hot and SOS1 hints (out of constraint-id order, two hints on one constraint), dependencies, parameters, description): set id_j := id_i for every ordered pair of variables and of constraints across active+removed; replace each id occurrence of each function (objective, constraints, removed constraints, dependencies) by an undefined id; unset each oneof; unset sense / objective / each constraint function / equality / kind / removed inner constraint; each of 5 invalid bound shapes on each variable; undefined / repeated ids at every position of the hints; undefined dependency key; neutral mutations - and EVERY ORDERED PAIR of those faults. Oracle: a reference validator that re-derives the set of violated rules from the mutated message: validate() must reject exactly when ids are duplicated or used ids undefined; TryFrom<v1::Instance> must accept exactly when no rule is violated and its error (RawParseError variant + outermost context field) must name a violated rule; accepted messages are compared field by field with the typed view (hook H2: ids, kinds, bounds with unset = unbounded / [0,1], constraints, removed constraints, dependencies, hints, parameters, description). The C03 instance family is the accepting-side corpus. ParametricInstance::validate with its own single/pair fault list, incl. three faults that break only the joint uniqueness of variable and parameter ids.",
         "Trusted: the reference validator (props/c08.rs) as the statement of the rules; hook H2 only returns references to the private fields. Hints naming a removed constraint are outside the alphabet.",
         "exhaustive single and pairwise fault injection on the real validators vs reference validator",
     ),
     "C17": (
         "model_checking",
-        "Abstract LP/MIP models rendered by the harness's own free-format MPS writer and loaded by the real readers (load_raw_reader, load_zipped_reader, load_file): the FULL PRODUCT of 27 row specs (E/L/G x range none/+2/-2 x rhs none/4/-3) x 50 column specs (integer marker x 25 bound specs: none, UP, negative UP, LO, LO+UP in both orders, LO+negative UP in both orders, FX, MI, PL, FR, BV, LI, UI, MI+UP, MI+negative UP, LI+UI, LO 0+UP 1, UP 1e30, FX 1, LO 1+UP 1, LO -1+UP 1, UP 1, FX 0) for one row x one column under every layout (3/5-field lines, comment lines, blank lines, wide separators) x 5 sense forms x 5 name styles (foreign / OMMX_-style / mixed for columns and rows, three objective row names) x objective constant x sparsity patterns; the full product of row and column specs for two rows x two columns; a fixed 5x6 model under all layouts; no-row models. The expected instance is computed from the abstract model (never by parsing) and compared by name: objective coefficients and constant (-RHS of the file's objective row), sense, one or two constraints per row by the RANGES table, effective domain per column (binary kind only for BV columns or integral columns with bounds exactly [0,1]), names / recovered ids. Fault files: undeclared row in COLUMNS / RANGES, unknown row / bound type, bad marker keyword, bad OBJSENSE word, unparsable numbers in every section, at every applicable line of a base file => Err, never a panic.",
+        "Abstract LP/MIP models rendered by the harness's own free-format MPS writer and loaded by the real readers (load_raw_reader, load_zipped_reader, load_file): the FULL PRODUCT of 27 row specs (E/L/G x range none/+2/-2 x rhs none/4/-3) x 50 column specs (integer marker x 25 bound specs: none, UP, negative UP, LO, LO+UP in both orders, LO+negative UP in both orders, FX, MI, PL, FR, BV, LI, UI, MI+UP, MI+negative UP, LI+UI, LO 0+UP 1, UP 1e30, FX 1, LO 1+UP 1, LO -1+UP 1, UP 1, FX 0) for one row x one column under every layout (3/5-field lines, comment and blank lines incl. between OBJSENSE and its value line, wide separators) x 5 sense forms x 5 name styles (foreign / OMMX_-style / mixed for columns and rows, three objective row names) x objective constant x sparsity patterns; the full product of row and column specs for two rows x two columns; a fixed 5x6 model under all layouts; no-row models. The expected instance is computed from the abstract model (never by parsing) and compared by name: objective coefficients and constant (-RHS of the file's objective row), sense, one or two constraints per row by the RANGES table, effective domain per column (binary kind only for BV columns or integral columns with bounds exactly [0,1]), names / recovered ids. Fault files: undeclared row in COLUMNS / RANGES, unknown row / bound type, bad marker keyword, bad OBJSENSE word, unparsable numbers in every section, at every applicable line of a base file => Err, never a panic.",
         "Residual un-owned nondeterminism: HashSet/HashMap order inside the parser (cannot change a correct result as compared). Outside the alphabet: UP 0 without LO, RANGES 0, second N row, RHS on an undeclared row.",
         "bounded exhaustive enumeration of abstract models x layouts rendered by an independent writer, loaded by the real parser; fault enumeration for the error alphabet",
     ),
@@ -122,19 +122,19 @@ CHECKS = {
     ),
     "C19": (
         "model_checking",
-        "Abstract QP models for EACH of the 120 problem-type codes (objective L/D/C/Q x variables C/B/M/I/G x constraints N/B/L/D/C/Q) x sizes up to n=5, m=4 (incl. m=0 under every constraint kind) x a deterministic sweep (210 quick / 840 thorough per code and size) that visits every value of every content dimension: Q0 diagonal / off-diagonal patterns, default b0 with non-defaults incl. an explicit zero, q0, per-constraint Qi / bi, constraint sides finite / exactly at the infinity value / beyond it / equal, variable bounds likewise, variable types, names, infinity value 1e20 or 50, sense; 4 layouts (comment lines with ! # %, blank lines, trailing text after values, lower-case keywords). Rendered by the harness's own QPLIB writer, loaded with qplib::load_file. Expected problem from the model: objective 1/2 x'Q0x + b0'x + q0 assembled from the lower triangle (diagonal entry v -> v/2 x_i^2), one <=0 constraint per finite side with the right signs, unique constraint ids, variable kinds/bounds/names. Fault files on 6 representative codes x 2 layouts: each type-code character invalid, too short, invalid sense, every count non-numeric / negative / fractional, every number and entry value / index unparsable, and truncation after EVERY line => Err whose message carries the line number of the fault.",
+        "Abstract QP models for EACH of the 120 problem-type codes (objective L/D/C/Q x variables C/B/M/I/G x constraints N/B/L/D/C/Q) x sizes up to n=5, m=4 (incl. m=0 under every constraint kind) x a deterministic sweep (210 quick / 840 thorough per code and size) that visits every value of every content dimension: Q0 diagonal / off-diagonal patterns, default b0 with non-defaults incl. an explicit zero, q0, per-constraint Qi / bi (constraints without linear entries: none / the last / the first / all), constraint sides finite / exactly at the infinity value / beyond it / equal, variable bounds likewise, variable types, names, infinity value 1e20 or 50, sense; 5 layouts (comment lines with ! # %, blank lines, trailing text after values, lower-case keywords, sparse sections in ascending or descending index order). Rendered by the harness's own QPLIB writer, loaded with qplib::load_file. Expected problem from the model: objective 1/2 x'Q0x + b0'x + q0 assembled from the lower triangle (diagonal entry v -> v/2 x_i^2), one <=0 constraint per finite side with the right signs, unique constraint ids, variable kinds/bounds/names. Fault files on 6 representative codes x 2 layouts: each type-code character invalid, too short, invalid sense, every count non-numeric / negative / fractional, every number and entry value / index unparsable, and truncation after EVERY line => Err whose message carries the line number of the fault.",
         "Format assumption: the two trailing name sections are always written. Outside the alphabet: out-of-range indices, upper-triangle or repeated entries.",
         "bounded exhaustive enumeration of type codes x content sweep rendered by an independent writer; fault enumeration incl. every truncation point",
     ),
     "C20": (
         "model_checking",
-        "Explicit exploration of add-operation histories: every sequence of length 0..3 (quick) / 0..4 (thorough, 70k archives) over the 16-action alphabet (4 layer kinds x {empty message whose bytes coincide across kinds so digests collide, non-trivial message} x {no annotations, all annotations}) and longer histories (to 5 / 6) over a sub-alphabet; each history is replayed from scratch through the real Builder::new_archive_unnamed..build() into a local OCI archive in a private scratch directory, reopened with Artifact::from_oci_archive and compared with a Vec<(media type, bytes, annotations)> reference: manifest order / media types / sha256 digests (computed with sha2) / annotations; get_layer by digest; typed getter of the stored kind returns an equal message and annotations, the other three fail; unknown digest fails; per-kind descriptor sub-sequences; positional listings get_instances / get_solutions. Annotation accessors: every single field, every pair of fields and all fields at once for the four annotation types (title, 1 and 3 authors incl. names and titles with leading / trailing blanks, created with sub-second precision and non-UTC offsets, licence, dataset, counts, user keys, start/end, instance and solver digests, parameters) after the archive round trip. An image with a foreign artifact type, or a plain image manifest without artifactType, must not yield a manifest; archives written without the SDK's builder (ocipkg + the published media types and annotation keys, which are literals in the harness) must be readable; the stored hex under another digest algorithm is an unknown digest.",
+        "Explicit exploration of add-operation histories: every sequence of length 0..3 (quick) / 0..4 (thorough, 70k archives) over the 16-action alphabet (4 layer kinds x {empty message whose bytes coincide across kinds so digests collide, non-trivial message with unsorted variable / constraint / parameter lists and repeated terms} x {no annotations, all annotations}) and longer histories (to 5 / 6) over a sub-alphabet; each history is replayed from scratch through the real Builder::new_archive_unnamed..build() into a local OCI archive in a private scratch directory, reopened with Artifact::from_oci_archive and compared with a Vec<(media type, bytes, annotations)> reference: manifest order / media types / sha256 digests (computed with sha2) / annotations; get_layer by digest; typed getter of the stored kind returns an equal message and annotations, the other three fail; unknown digest fails; per-kind descriptor sub-sequences; positional listings get_instances / get_solutions. Annotation accessors: every single field, every pair of fields and all fields at once for the four annotation types (title, 1 and 3 authors incl. names and titles with leading / trailing blanks, created with sub-second precision and non-UTC offsets, licence, dataset, counts, user keys, start/end, instance and solver digests, parameters) after the archive round trip. An image with a foreign artifact type, or a plain image manifest without artifactType, must not yield a manifest; archives written without the SDK's builder (ocipkg + the published media types and annotation keys, which are literals in the harness) must be readable; the stored hex under another digest algorithm is an unknown digest.",
         "With equal digests a digest-only lookup cannot distinguish layers: typed getters are asserted against the first layer with that digest (see evidence assumptions); positional listings are asserted strictly. No registry access (local archives only).",
         "explicit-state exploration of operation histories on the real builder/reader vs a Vec reference model",
     ),
     "C07": (
         "model_checking",
-        "The model is the schema itself, parsed from proto/ommx/v1/*.proto by the harness's own parser (31 messages, 121 fields, 5 enums). (1) Binding the model to the implementations, exhaustively over every message / field / enum value: the prost attributes of rust/ommx/src/ommx.v1.rs (struct <-> message, field name, tag, type, optional/repeated/map/oneof, enum discriminants and as_str_name tables), the serialized FileDescriptorProto embedded in each python/ommx/ommx/v1/*_pb2.py (extracted with ast, decoded with the harness's own wire decoder) and the field lists of the .pyi stubs must all equal the model. (2) Every model state of every message type is replayed on the real prost code: every subset of field slots (all subsets for <= 8 slots, size <= 3 otherwise) x every alternative value per slot (repeated with 1-2 elements, maps with 1-2 entries, each oneof arm, nested messages populated one level deep and present-but-empty, every declared enum value and an undeclared one, explicit-presence defaults), encoded by the harness's own schema-driven encoder in 5 encodings (packed / unpacked repeated scalars, reversed field order, appended unknown fields of every wire type) -> M::decode must succeed -> the set of Rust fields that changed (read from the Debug rendering, which names every Rust field) must be exactly the fields sent and enum values must render as the schema's names -> encode_to_vec -> the harness's own decoder must recover the content with schema-conforming wire types -> decode(encode(m)) == m. (3) data/random_lp_instance.ommx, written by an earlier release, must open, decode, validate and re-encode to an equal message; archives written by another conforming implementation (ocipkg + the published media types / annotation keys as literals) must be readable through the typed getters.",
+        "The model is the schema itself, parsed from proto/ommx/v1/*.proto by the harness's own parser (31 messages, 121 fields, 5 enums). (1) Binding the model to the implementations, exhaustively over every message / field / enum value: the prost attributes of rust/ommx/src/ommx.v1.rs (struct <-> message, field name, tag, type, optional/repeated/map/oneof, enum discriminants and as_str_name tables), the serialized FileDescriptorProto embedded in each python/ommx/ommx/v1/*_pb2.py (extracted with ast, decoded with the harness's own wire decoder) and the field lists of the .pyi stubs must all equal the model. (2) Every model state of every message type is replayed on the real prost code: every subset of field slots (all subsets for <= 8 slots, size <= 3 otherwise) x every alternative value per slot (repeated with 1-2 elements, maps with 1-2 entries, each oneof arm, nested messages populated one level deep and present-but-empty, every declared enum value and an undeclared one, explicit-presence defaults), encoded by the harness's own schema-driven encoder in 5 encodings (packed / unpacked repeated scalars, reversed field order, appended unknown fields of every wire type) -> M::decode must succeed -> the set of Rust fields that changed (read from the Debug rendering, which names every Rust field) must be exactly the fields sent and enum values must render as the schema's names -> encode_to_vec -> the harness's own decoder must recover the content with schema-conforming wire types -> decode(encode(m)) == m. (3) data/random_lp_instance.ommx, written by an earlier release, must open, decode, validate and re-encode to an equal message; archives written by another conforming implementation (ocipkg + the published media types / annotation keys as literals) must be readable through the typed getters and positional listings, as one- and two-layer archives (every ordered pair of kind x empty / non-trivial message).",
         "No Python protobuf runtime is installed: the Python classes are not executed; their embedded descriptors are compared statically. Trusted base of the static step (prost's derive honours its attributes) is exactly what the dynamic step checks. python3 (stdlib only) is used for the three schema scrapers.",
         "explicit enumeration of schema states replayed on the real codec through an independent codec, plus exhaustive static binding of the schema model to the generated bindings",
     ),
